@@ -216,6 +216,13 @@ func c35(r *simk.Run) *simk.Violation {
 			}
 		}
 	})
+	fp.mu.Lock()
+	for _, b := range fp.log {
+		if b != "honest" {
+			s.FaultFired("chunk_response_" + b)
+		}
+	}
+	fp.mu.Unlock()
 	r.Sample(sample)
 	if nontrivial {
 		r.Nontrivial()
